@@ -1,0 +1,32 @@
+//go:build verif
+
+/*
+ * Licensed to the Apache Software Foundation (ASF) under one or more
+ * contributor license agreements.  See the NOTICE file distributed with
+ * this work for additional information regarding copyright ownership.
+ * The ASF licenses this file to You under the Apache License, Version 2.0
+ * (the "License"); you may not use this file except in compliance with
+ * the License.  You may obtain a copy of the License at
+ *
+ *     http://www.apache.org/licenses/LICENSE-2.0
+ *
+ * Unless required by applicable law or agreed to in writing, software
+ * distributed under the License is distributed on an "AS IS" BASIS,
+ * WITHOUT WARRANTIES OR CONDITIONS OF ANY KIND, either express or implied.
+ * See the License for the specific language governing permissions and
+ * limitations under the License.
+ */
+
+package fanout
+
+// Verification contracts (comment-only, tag verif) for property C11, queue pressure: a batch of branch
+// commits handed to the worker pool is either queued or refused for a reason the caller can see
+// (the pool was closed, the caller's context is done) - never dropped because the buffer happens to
+// be full: Do waits for room.
+//@ func (*Fanout).Do
+//@   prop C11
+//@   requires c != nil && c.ctx != nil && ctx != nil && f != nil
+//@   modifies chanlen(c.ch), ghost.ctx_done
+//@   ensures queued-on-success: result == nil && !called("Err#2") ==> chanlen(c.ch) == old(chanlen(c.ch)) + 1
+//@   ensures refused-only-when-closed-or-cancelled: result != nil ==> called("Err#2") && result == callres("Err#2", 0)
+//@   may_panic
